@@ -51,7 +51,7 @@ class C06(BaseCheck):
                  'bounded progress is judged only in phases with all members healthy, no membership change and '
                  'no jitter; eventual convergence is restated as: reached within 2/3 of a >= 60 s phase')
   QUICK_CASES = 480
-  THOROUGH_CASES = 5000
+  THOROUGH_CASES = 8000
   QUICK_WALL = 50
   THOROUGH_WALL = 420
   MIN_DISTINCT = 10
